@@ -205,6 +205,15 @@ func (r *Rig) hook(point string, args ...interface{}) {
 			return
 		}
 		rec := l.Rec
+		if own, ok := l.Owner.(*session); ok && own != nil {
+			// system rig: the real client chose the ClientID; learn it from the
+			// first carrier of the scenario's only session
+			if _, loaded := r.byID.LoadOrStore(id, own); !loaded {
+				own.cmu.Lock()
+				own.id = id
+				own.cmu.Unlock()
+			}
+		}
 		name, _ := r.idName(id, rec)
 		switch point {
 		case "srv.attach", "srv.attached":
@@ -212,6 +221,13 @@ func (r *Rig) hook(point string, args ...interface{}) {
 		case "srv.detach":
 			rec.Struct(point, "k", l.K, "id", name)
 		case "srv.in", "srv.out":
+			if os, ok := l.Owner.(*session); ok && os != nil && point == "srv.in" && len(args[2].([]byte)) >= 4 {
+				// system rig: learn the KCP conversation id of the session from its first upstream packet
+				if atomic.CompareAndSwapInt32(&os.convSet, 0, 1) {
+					os.conv = binary.LittleEndian.Uint32(args[2].([]byte))
+					r.byConv.Store(os.conv, os)
+				}
+			}
 			own := r.convOwner(args[2].([]byte), rec)
 			rec.Run(point, fmt.Sprintf("%s/%d/%s/%d", point, l.K, name, own), 1, true, "k", l.K, "id", name, "own", own)
 		}
@@ -331,6 +347,9 @@ type session struct {
 	srvConn net.Conn
 	accepts int32
 	streams []interface{}
+	conv    uint32
+	convSet int32
+	failed  int32 // an application read/write returned an error: the scenario cannot complete any more
 
 	got    [2]int64 // bytes verified: up (at the server), down (at the client)
 	done   [2]int32
@@ -706,6 +725,7 @@ func (s *session) writeStream(w io.Writer, dir string, total int64) {
 		vh.Fill(buf[:n], key, uint64(off))
 		if _, err := w.Write(buf[:n]); err != nil {
 			if atomic.LoadInt32(&s.sc.ending) == 0 && s.plan.Bad == "" {
+				atomic.StoreInt32(&s.failed, 1)
 				s.sc.rec.Struct("app.werr", "s", s.idx, "d", dir, "off", int(off), "err", shortErr(err))
 			}
 			return
@@ -744,6 +764,7 @@ func (s *session) readStream(r net.Conn, dir string, total int64) {
 		}
 		if err != nil {
 			if atomic.LoadInt32(&s.sc.ending) == 0 && s.plan.Bad == "" {
+				atomic.StoreInt32(&s.failed, 1)
 				s.sc.rec.Struct("app.rerr", "s", s.idx, "d", dir, "off", int(off), "err", shortErr(err))
 			}
 			return
@@ -804,17 +825,29 @@ func (s *session) complete() bool {
 }
 
 func (s *session) stop() {
-	if s.stream != nil {
-		s.stream.Close()
-	}
-	if s.smx != nil {
-		s.smx.Close()
-	}
-	if s.kconn != nil {
-		s.kconn.Close()
-	}
-	if s.pconn != nil {
-		s.pconn.Close()
+	// The reliable layer first: a stream Close blocks in a full KCP send
+	// window when nothing is acknowledged any more.  Bounded in any case: the
+	// teardown of a broken stack must not hang the driver.
+	done := make(chan struct{})
+	go func() {
+		if s.kconn != nil {
+			s.kconn.Close()
+		}
+		if s.pconn != nil {
+			s.pconn.Close()
+		}
+		if s.smx != nil {
+			s.smx.Close()
+		}
+		if s.stream != nil {
+			s.stream.Close()
+		}
+		close(done)
+	}()
+	select {
+	case <-done:
+	case <-time.After(3 * time.Second):
+		s.sc.rec.Note("teardown of session %d did not finish within 3 s", s.idx)
 	}
 	s.cmu.Lock()
 	c := s.cur
@@ -838,6 +871,9 @@ func (s *session) forget() {
 	s.sc.rig.byID.Delete(s.id)
 	if s.kconn != nil {
 		s.sc.rig.byConv.Delete(s.kconn.GetConv())
+	}
+	if atomic.LoadInt32(&s.convSet) != 0 {
+		s.sc.rig.byConv.Delete(s.conv)
 	}
 }
 
@@ -954,6 +990,16 @@ func (r *Rig) Run(sc *Scenario, index int) *Result {
 		}
 		if all {
 			res.Done = true
+			break
+		}
+		broken := false
+		for _, s := range sr.sess {
+			if atomic.LoadInt32(&s.failed) != 0 {
+				broken = true
+			}
+		}
+		if broken {
+			// recorded as app.rerr / app.werr; waiting for the bound adds nothing
 			break
 		}
 		sr.omu.Lock()
